@@ -21,7 +21,7 @@ class C17(Prop):
             api = r.choice(["json", "json", "standjson", "yaml"])
             doc, good, bad = r.choice(G.DOC_WITH_PATHS)
             test = r.choice(G.TEST_NAMES)
-            fail = r.choice([None, "missing", "type", "custom", "mixed", "mixed", "nulltype"])
+            fail = r.choice([None, "missing", "missing2", "type", "custom", "mixed", "mixed", "nulltype"])
             ms = G.gen_matchers(r, good, bad, fail)
             if api == "yaml":
                 doc = b"user:\n  name: n\n  age: 3\ntags:\n  - x\n  - y\ntime: t\nok: true\n"
@@ -33,9 +33,19 @@ class C17(Prop):
                     kind = r.choice(["any", "custom", "type"])
                     ms.append({"kind": kind, "paths": [pth], "ret": '"<c>"', "type": ytypes[pth]})
                 if fail:
-                    f = fail if fail != "mixed" else r.choice(["missing", "custom", "type"])
+                    f = fail if fail != "mixed" else r.choice(["missing", "missing2", "custom", "type", "badpath"])
                     if f == "missing":
                         bm = {"kind": r.choice(["any", "type"]), "paths": [r.choice(bad_y)], "type": "string"}
+                    elif f == "missing2":
+                        bm = {"kind": r.choice(["any", "type"]), "paths": list(bad_y), "type": "string", "expect_named": list(bad_y)}
+                        if bm["kind"] == "type" and r.chance(1, 2):
+                            free = [q for q in good_y if q not in {m_["paths"][0] for m_ in ms}]
+                            if free:
+                                q = free[0]
+                                bm = {"kind": "type", "type": "bool" if ytypes[q] != "bool" else "string", "paths": [q, bad_y[0]], "expect_named": [q, bad_y[0]]}
+                    elif f == "badpath":
+                        # a path the YAML path parser rejects
+                        bm = {"kind": r.choice(["any", "type"]), "paths": [r.choice(["user.name", "$..[", "$.tags[x]"])], "type": "string"}
                     elif f in ("type", "nulltype"):
                         # a value of the wrong type for Type, at a path no other matcher rewrites first
                         used = {m_["paths"][0] for m_ in ms}
@@ -83,6 +93,17 @@ class C17(Prop):
                           % (bad[2], case["meta"].get("fail"), bad[1]["pre"][:20], bad[3]["outcome"])})
         if not want_fail and bad[1]["pre"] == "matcherr":
             fails.append({"msg": "obs %d: satisfiable matchers reported a failure" % bad[2]})
+        if bad[1]["pre"] == "matcherr" and bad[3].get("etext", "-") != "-":
+            # "one failure that names every failing matcher and path": the paths the generator knows to fail
+            raw_bad = [o_ for o_ in case["ops"] if o_.get("op") == "match" and o_.get("matchers")]
+            text = unhx(bad[3]["etext"])
+            if raw_bad:
+                known_bad = ("missing", "user.nope", "tags.7", "2", "0.z", "k.dot", "nope", "$.missing", "$.user.nope", "user.name", "$..[", "$.tags[x]")
+                for m_ in raw_bad[0]["matchers"]:
+                    for pth in m_["paths"]:
+                        must = (pth in known_bad and m_.get("errOnMissing", True) is not False and not (pth == "user.name" and case["meta"].get("api") != "yaml")) or m_.get("err") or pth in m_.get("expect_named", [])
+                        if must and pth.encode() not in text:
+                            fails.append({"msg": "obs %d: the failure does not name the failing path %s" % (bad[2], pth)})
         if bad[1]["pre"] in ("matcherr", "invalid"):
             o = bad[3]
             if not o["outcome"].startswith("failed:") or o["errors"] != "1" or o["writes"] != "-" or fss[0][2] != fss[1][2]:
